@@ -31,6 +31,7 @@ type codeBehaviour struct {
 }
 
 type fakeIdP struct {
+	expiredN int
 	srv      *httptest.Server
 	key      *rsa.PrivateKey
 	otherKey *rsa.PrivateKey
@@ -147,8 +148,18 @@ func (f *fakeIdP) idToken(cb codeBehaviour) string {
 	case "wrongaud":
 		c["aud"] = "someone-else"
 	case "expired":
-		c["exp"] = now.Add(-time.Hour).Unix()
-		c["iat"] = now.Add(-2 * time.Hour).Unix()
+		// alternately just expired and long expired: no grace period is part of the property
+		f.mu.Lock()
+		f.expiredN++
+		recent := f.expiredN%2 == 1
+		f.mu.Unlock()
+		if recent {
+			c["exp"] = now.Add(-30 * time.Second).Unix()
+			c["iat"] = now.Add(-10 * time.Minute).Unix()
+		} else {
+			c["exp"] = now.Add(-time.Hour).Unix()
+			c["iat"] = now.Add(-2 * time.Hour).Unix()
+		}
 	}
 	for k, v := range cb.claims {
 		c[k] = v
